@@ -11,6 +11,7 @@ import (
 	"time"
 
 	"verif/engine"
+	"verif/layera"
 	"verif/layerb"
 )
 
@@ -40,9 +41,9 @@ type Evidence struct {
 }
 
 func writeEvidence(ev *Evidence) {
-	os.MkdirAll("/verif/evidence", 0o755)
+	os.MkdirAll(filepath.Join(layera.Root(), "evidence"), 0o755)
 	b, _ := json.MarshalIndent(ev, "", " ")
-	os.WriteFile(filepath.Join("/verif/evidence", ev.PropertyID+".json"), append(b, '\n'), 0o644)
+	os.WriteFile(filepath.Join(layera.Root(), "evidence", ev.PropertyID+".json"), append(b, '\n'), 0o644)
 }
 
 // KnownFinding is an entry of /verif/known_findings.json.
@@ -58,7 +59,7 @@ type KnownFinding struct {
 
 func loadKnown() []KnownFinding {
 	var ks []KnownFinding
-	b, err := os.ReadFile("/verif/known_findings.json")
+	b, err := os.ReadFile(filepath.Join(layera.Root(), "known_findings.json"))
 	if err != nil {
 		return nil
 	}
@@ -221,7 +222,7 @@ func (lr *lbRun) finish(res *lbResult, level string, extra map[string]interface{
 	obligations, discharged := 0, 0
 	distinct := 0
 	var skipped []string
-	replayDir := filepath.Join("/verif/replays", prop)
+	replayDir := filepath.Join(layera.Root(), "replays", prop)
 	os.RemoveAll(replayDir)
 	type viol struct {
 		f *layerb.Finding
